@@ -78,7 +78,7 @@ def do_call(ap, cg, fx, fys, c, last_forward, rng_seed_base):
         r = lib.rng_for(c['seed'], 'seed')
         ybars = [ap.UTPM(progs.rand_utpm_data(r, D, P, 1)[:, :, 0]) for _ in fys]
         cg.pullback(ybars)
-        return [numpy.array(fx.xbar.data, copy=True)]
+        return [fx.xbar.data]          # the array itself: the documented row-by-row Jacobian keeps views of it across sweeps
     if c['call'] == 'driver':
         x = numpy.array(c['x']); v = numpy.array(c['v'])
         d = c['driver']
@@ -122,6 +122,7 @@ def main(tier, seed):
         except Exception as e:
             rep.notes.append('recording raised %r' % e); continue
         hist = []
+        held = []                 # (call index, arrays as returned -- not copied --, copies taken at return time)
         last_forward = None
         last_call = None
         L = rng.randint(2, 10)
@@ -155,7 +156,17 @@ def main(tier, seed):
                 break
             try:
                 before = node_snapshot(cg) if c['call'] == 'reverse' else None
-                got = do_call(ap, cg, fx, fys, c, last_forward, 0)
+                got_raw = do_call(ap, cg, fx, fys, c, last_forward, 0)
+                got = [numpy.array(g, copy=True) for g in got_raw]
+                # results handed out by EARLIER calls must not change under later calls (row-by-row Jacobian: J_row1 = x.xbar.data[0,0],
+                # second pullback, vstack)
+                stale = [k for k, raw, cp in held if any(r.shape != c_.shape or not numpy.array_equal(r, c_, equal_nan=True) for r, c_ in zip(raw, cp))]
+                if stale:
+                    rep.violation('history:returned-result-overwritten', 'the result returned by call %d (%s) was overwritten by call %d (%s)'
+                                  % (stale[0], hist[stale[0]]['call'], len(hist) - 1, c['call']), dict(kind='history', prog=prog, case=meta, x_rec=x_rec.tolist()))
+                    break
+                if c['call'] in ('reverse', 'driver'):
+                    held.append((len(hist) - 1, got_raw, got))
                 if before is not None and not snapshots_equal(before, node_snapshot(cg)):
                     key = 'node-values-changed' + (':buffers' if meta['buffers'] else '')
                     rep.violation(key, 'a reverse sweep changed forward values stored in the graph (node.x before/after cg.pullback differ)',
